@@ -145,7 +145,7 @@ def big_rmslice(ck):
 
 
 # ------------------------------------------------------------------ whole runs at scale
-def _run(strategy, data, f, atom="line", cap=100000, exc_at=None, via_link=None, watchdog=120.0, prefill=None, cfg=None):
+def _run(strategy, data, f, atom="line", cap=100000, exc_at=None, via_link=None, watchdog=120.0, prefill=None, cfg=None, light=None):
     """one real Lithium.run on a big file under the deterministic test f(bytes)->bool; returns the runner's Run"""
     from runner import TestRaised, impl_run
 
@@ -154,7 +154,7 @@ def _run(strategy, data, f, atom="line", cap=100000, exc_at=None, via_link=None,
             return "R"
         return "Y" if f(d) else "N"
     return impl_run(strategy, cfg or {}, None, data, verdict, atom=atom, load=True, cap=cap, exc_class=TestRaised,
-                    watchdog=watchdog, via_link=via_link, prefill=prefill)
+                    watchdog=watchdog, via_link=via_link, prefill=prefill, light=light)
 
 
 def last_accepted_of(run, data):
